@@ -1088,8 +1088,43 @@ func (p *prover) minArgs(a atom, args []ssa.Value) {
 // edgeFacts turns the branch conditions dominating block b into difference facts.
 func (p *prover) edgeFacts(b *ssa.BasicBlock) []dfact { return p.condFacts(edgeConds(b)) }
 
+// expandBoolPhis: a condition that is the value of `a && b` (or `a || b`) kept in a variable is a phi whose other
+// edges are the constant false (true). When it is true (false), the one non-constant edge was taken: its value is
+// true (false) and the conditions under which its block runs hold as well.
+func expandBoolPhis(conds []Cond, depth int) []Cond {
+	if depth > 3 {
+		return conds
+	}
+	out := append([]Cond(nil), conds...)
+	for _, cd := range conds {
+		ph, ok := cd.V.(*ssa.Phi)
+		if !ok {
+			continue
+		}
+		var rest []int
+		for i, e := range ph.Edges {
+			if b, isC := constBool(e); isC && b == !cd.Truth {
+				continue
+			}
+			rest = append(rest, i)
+		}
+		if len(rest) != 1 {
+			continue
+		}
+		i := rest[0]
+		pred := ph.Block().Preds[i]
+		extra := []Cond{{V: ph.Edges[i], Truth: cd.Truth}}
+		if len(pred.Succs) == 1 { // the edge's block is left unconditionally: what guards it guards the edge
+			extra = append(extra, edgeConds(pred)...)
+		}
+		out = append(out, expandBoolPhis(extra, depth+1)...)
+	}
+	return out
+}
+
 func (p *prover) condFacts(conds []Cond) []dfact {
 	var out []dfact
+	conds = expandBoolPhis(conds, 0)
 	for _, cd := range conds {
 		bo, ok := cd.V.(*ssa.BinOp)
 		if !ok {
